@@ -1285,6 +1285,36 @@ def c18_delta_bitmap(env, ob):
     return trace_obligation(env, ob, ctx, res, bad, "write_delta does not receive the complete old value set", cuts_ok=True)
 
 
+@obligation(id="C18.older_deltas_stay_where_readers_look", also="C13,C16", funcs="Tuple::add_version_with",
+            bounds="every path of add_version_with that carries older deltas over (loops unrolled once); callees uninterpreted",
+            native="c18_two_updates_then_walk_the_chain")
+def c18_old_deltas_aligned(env, ob):
+    """Every reader of the version chain (parse_for_snapshot, vaccum_with, num_versions_with) finds the next delta at
+    DeltaHeader::aligned_offset(end of the previous one).  When an UPDATE writes a new delta in front of the existing
+    ones, the existing ones must therefore be copied to that aligned offset - not to wherever the new delta happened to
+    end (a delta whose last old value is a BOOL / INT / TEXT / NULL ends off the 8-byte grid)."""
+    ctx, f, args, res = explore(env, "storage/tuple.rs", "add_version_with", loop_bound=1)
+
+    def bad(path, rv):
+        if path.panics or rv is None:
+            return None
+        wd = idx(path, r"Tuple::write_delta$")
+        cp = [i for i in idx(path, r"IndexMut<std::ops::Range<usize>>>::index_mut$") if wd and i > wd[0]]
+        if not wd or not cp:
+            return None
+        rng = path.events[cp[0]]["args"][1]
+        start = rng.fields.get("start") or rng.fields.get("0") if isinstance(rng, Agg) else None
+        if start is None or not isinstance(start.val, Leaf):
+            return ("destination_of_the_older_deltas_unknown", None)
+        al = [e for e in path.events[wd[0]:cp[0]] if callee_is(e, r"DeltaHeader::aligned_offset$") and isinstance(e["ret"], Leaf)]
+        if any(e["ret"].term == start.val.term for e in al):
+            return None
+        return ("older_deltas_copied_to_an_unaligned_offset", None)
+    if not any(idx(p, r"Tuple::write_delta$") for p, rv in res):
+        return result(ob, "inconclusive", reason="vacuity: no path writes a delta", paths=len(res))
+    return trace_obligation(env, ob, ctx, res, bad, "add_version_with copies the existing deltas to the raw end of the new delta", cuts_ok=True)
+
+
 @obligation(id="C13.vacuum_order", funcs="Database::vacuum::{closure#0}",
             bounds="every path of the vacuum worker closure; callees uninterpreted")
 def c13_vacuum_order(env, ob):
